@@ -51,3 +51,27 @@ pub fn file_cf(f: File) -> BitBoard {
 pub fn adjacent_files_cf(f: File) -> BitBoard {
     BitBoard(sp::s_adjacent_files(f.to_index() as u8))
 }
+
+// ---- abstractions used by the make_move obligations ----
+/// frame stand-in: no rays at all => the slider scan loop has no iterations (see O2.1a for the assumption this encodes)
+pub fn no_rays(_s: Square) -> BitBoard {
+    BitBoard(0)
+}
+/// havoc abstraction of get_rook_rays / get_bishop_rays: ANY set of at most 14 squares (the real rays of a
+/// square never have more than 14 members — proved against the real tables by O16.3s)
+pub fn havoc_rays(_s: Square) -> BitBoard {
+    let x: u64 = kani::any();
+    kani::assume(x.count_ones() <= 14);
+    BitBoard(x)
+}
+/// probe stand-in for Zobrist::piece: every key is 0 except the probed coordinate
+pub static mut PROBE: (usize, u8, usize, u64) = (0, 0, 0, 0);
+pub fn zobrist_probe(p: crate::piece::Piece, sq: Square, c: Color) -> u64 {
+    unsafe {
+        if p.to_index() == PROBE.0 && sq.to_int() == PROBE.1 && c.to_index() == PROBE.2 {
+            PROBE.3
+        } else {
+            0
+        }
+    }
+}
